@@ -19,7 +19,19 @@ func init() {
 		assumptions: commonAssumptions}})
 }
 
-var c13Pool = append(append([]string{}, mon.HostileKeys...), "\\", "a\\.b", "a\\", "x")
+var c13Pool = dedupe(append(append([]string{}, mon.HostileKeys...), "\\", "a\\.b", "a\\", "x"))
+
+func dedupe(xs []string) []string {
+	seen := map[string]bool{}
+	out := []string{}
+	for _, x := range xs {
+		if !seen[x] {
+			seen[x] = true
+			out = append(out, x)
+		}
+	}
+	return out
+}
 
 type c13Schema struct {
 	name         string
